@@ -393,12 +393,74 @@ def block_exposed_only_after_disarm(chk, prog, rule="block-exposed-only-after-di
     for key, body in prog.bodies.items():
         if "promoted[" in key or not body.get("local"):
             continue
-        argc = body.get("argc") or 0
-        holders = {i for i in range(1, argc + 1) if _builder_ty(prog, body["locals"][i])}
+        # every local of a builder type (parameters, and builders made in the function itself)
+        holders = {i for i in range(1, len(body["locals"])) if _builder_ty(prog, body["locals"][i])}
         if not holders:
             continue
         examined += 1
         defs = coverage._defs(body)
+
+        def origin(l, seen=()):
+            """Follow plain moves / copies / reborrows back to the local the value first lived in."""
+            ds = defs.get(l, [])
+            if len(ds) == 1 and ds[0][0] == "rv" and l not in seen:
+                r = ds[0][1]
+                src = None
+                if r["k"] in ("use", "cast") and r["o"].get("k") in ("copy", "move") and not [x for x in r["o"]["p"]["p"] if x[0] != "d"]:
+                    src = r["o"]["p"]["l"]
+                elif r["k"] in ("ref", "rawptr") and not [x for x in r["p"]["p"] if x[0] != "d"]:
+                    src = r["p"]["l"]
+                if src is not None and src in holders:
+                    return origin(src, seen + (l,))
+            return l
+
+        def derives(op, depth=0, consumed=False, seen=frozenset()):
+            """{(holder origin, consumed?)}: the builders an operand's value is taken from, and whether a disarming /
+            consuming step lies on the way."""
+            if op.get("k") not in ("copy", "move") or depth > 16:
+                return set()
+            l = op["p"]["l"]
+            if l in holders:
+                o_ = origin(l)
+                t = prog.ty(body["locals"][o_])
+                md = t.get("k") == "adt" and t.get("def", "").endswith("ManuallyDrop")
+                # a reference obtained by a call (`Deref::deref(&manually_drop)`, an accessor): look through it
+                if not md and o_ not in seen:
+                    up = set()
+                    for kind, d, _bi in defs.get(o_, []):
+                        if kind == "call" and d["args"]:
+                            up |= derives(d["args"][0], depth + 1, consumed, seen | {o_})
+                    if up:
+                        return up
+                return {(o_, consumed or md)}
+            if l in seen:
+                return set()
+            seen = seen | {l}
+            out = set()
+            for kind, d, _bi in defs.get(l, []):
+                if kind == "rv":
+                    if d["k"] in ("use", "cast"):
+                        out |= derives(d["o"], depth + 1, consumed, seen)
+                    elif d["k"] in ("ref", "rawptr"):
+                        out |= derives({"k": "copy", "p": d["p"]}, depth + 1, consumed, seen)
+                    elif d["k"] == "agg":
+                        for o in d["ops"]:
+                            out |= derives(o, depth + 1, consumed, seen)
+                else:
+                    t = d
+                    if not t["args"]:
+                        continue
+                    f = t["f"]
+                    r = f.get("resolved")
+                    name = norm(r["def"]) if r else norm(f.get("def", ""))
+                    c2 = consumed or name in DISARMING
+                    fs = prog.fn_n.get(name)
+                    if fs and (fs[0].get("inputs") or []):
+                        t0 = prog.ty(fs[0]["inputs"][0]["ty"])
+                        if t0.get("k") == "adt" and t0.get("def") in BUILDER_TYPES:
+                            c2 = True           # a completion function took the builder by value
+                    out |= derives(t["args"][0], depth + 1, c2, seen)
+            return out
         dom = None
         exposures = []          # (block, line, operand, what)
         for bi, bb in enumerate(body["blocks"]):
@@ -422,25 +484,10 @@ def block_exposed_only_after_disarm(chk, prog, rule="block-exposed-only-after-di
         for bi, bb in enumerate(body["blocks"]):
             t = bb["t"]
             if t and t["k"] == "call" and t["args"] and norm((t["f"].get("resolved") or t["f"]).get("def", "")) == "core::mem::forget":
-                for (r0, acc, fl) in coverage.chains_of(prog, body, defs, t["args"][0]):
-                    if r0 in holders and not acc:
-                        forgets.setdefault(r0, set()).add(bi)
+                for (h, _c) in derives(t["args"][0]):
+                    forgets.setdefault(h, set()).add(bi)
         for (bi, line, op, what) in exposures:
-            live = set()
-            for (r0, acc, fl) in coverage.chains_of(prog, body, defs, op):
-                if r0 not in holders:
-                    continue
-                consumed = False
-                for a in acc:
-                    if a in DISARMING:
-                        consumed = True
-                    fs = prog.fn_n.get(a)
-                    if fs and (fs[0].get("inputs") or []):
-                        t0 = prog.ty(fs[0]["inputs"][0]["ty"])
-                        if t0.get("k") == "adt" and t0.get("def") in BUILDER_TYPES:
-                            consumed = True     # a completion function took the builder by value
-                if not consumed:
-                    live.add(r0)
+            live = {h for (h, consumed) in derives(op) if not consumed}
             if not live:
                 continue
             n += 1
